@@ -7,7 +7,7 @@
   Helper development: `J2M/Proofs/Render2.lean`; layout part: `J2M/Props/C06.lean`.
 -/
 import J2M.Props.C06
-import J2M.Proofs.Render2
+import J2M.Proofs.Render2Eval
 namespace J2M.C06R
 open J2M.Rend2
 
@@ -50,22 +50,8 @@ theorem render_ptrs_perm (c : RenderCfg) (o : RenderOracles) {g₁ g₂ : Graph}
 
 /-! ### non-vacuity: a registry with a shared and a recursive model, rendered from two pointer orders -/
 
-/-- oracles that are the identity on the names involved -/
-def exOracles : RenderOracles where
-  label := { unidecode := some, stripW := some, underscore := some, lowerAz := fun _ => some false }
-  isPrintable := fun _ => true
-
-def exCfg : RenderCfg where
-  fw := .pydantic
-  maxLiterals := 10
-  postInit := false
-  convertUnicode := true
-  withMeta := false
-  decoKwargs := []
-  literalModule := "typing"
-  blacklist := ["class", "List"]
-  serInfo := []
-  metadataFieldName := "J2M_ORIGINAL_FIELD"
+/-- configuration of the examples (`Rend2.exOracles`: oracles that are the identity on the names involved) -/
+abbrev exCfg : RenderCfg := Rend2.exCfg .pydantic
 
 def exG₁ : Graph where
   models := [{ idx := "1A", fields := [("b", .ptr "1B"), ("c", .list (.ptr "1C"))], name := some "Root" },
@@ -85,11 +71,17 @@ example : (renderFlat exCfg exOracles exG₁ none).toOption = some
      [("1A", some "Root"), ("1B", some "B"), ("1C", some "class_")]) ∧
   (renderFlat exCfg exOracles exG₂ none).toOption = (renderFlat exCfg exOracles exG₁ none).toOption := by
   decide +kernel
--- … and this one (nested layout, with the shared model referenced through its root class)
-example : (renderNested exCfg exOracles exG₁ none).toOption = some
+-- … and the nested layout (the shared model `1C` is placed in the root class and referenced through it)
+example : composeNested exG₁ = .ok ([.mk "1A" [.mk "1C" [], .mk "1B" []]], [("1C", "1A")]) ∧
+    composeNested exG₂ = .ok ([.mk "1A" [.mk "1C" [], .mk "1B" []]], [("1C", "1A")]) :=
+  ⟨composeNested_of_check (by decide +kernel), composeNested_of_check (by decide +kernel)⟩
+
+example : renderNested exCfg exOracles exG₁ none = .ok
     ("from pydantic.v1 import BaseModel, Field\nfrom typing import List, Optional\n\n\nclass Root(BaseModel):\n    class class_(BaseModel):\n        x: int\n        self: Optional['Root.class_'] = None\n\n    class B(BaseModel):\n        c: 'Root.class_'\n\n    b: 'B'\n    c: List['Root.class_']\n",
-     [("1A", some "Root"), ("1B", some "B"), ("1C", some "class_")]) ∧
-  (renderNested exCfg exOracles exG₂ none).toOption = (renderNested exCfg exOracles exG₁ none).toOption := by
-  decide +kernel
+     [("1A", some "Root"), ("1B", some "B"), ("1C", some "class_")]) := by
+  unfold renderNested
+  rw [composeNested_of_check (roots := [.mk "1A" [.mk "1C" [], .mk "1B" []]]) (inj := [("1C", "1A")]) (by decide +kernel)]
+  show generateCode exCfg exOracles exG₁ [.mk "1A" [.mk "1C" [], .mk "1B" []]] [("1C", "1A")] none = _
+  exact generateCode_of_eval (by decide +kernel)
 
 end J2M.C06R
